@@ -44,6 +44,10 @@ m = {
          "kind_free_text": "Rust crate linked against /repo's working tree with hooks on: generators, in-process execution of the real code, oracle"},
         {"name": "codepoint-translator", "path": "tools/gen_codepoints.py", "serves_properties": ["C18"],
          "kind_free_text": "regenerates the Lean code-point tables from the Rust macro invocations on every run"},
+        {"name": "wellknown-translator", "path": "tools/gen_wellknown.py", "serves_properties": ["C19"],
+         "kind_free_text": "regenerates the Lean well-known community table from the wellknown! invocation on every run"},
+        {"name": "fsm-arm-inventory", "path": "tools/fsm_arms.py", "serves_properties": ["C08"],
+         "kind_free_text": "lists the (state, event) arm heads and todo!() bodies of Session::handle_event and compares them with the committed inventory the model's transition table was written from"},
     ],
     "checks": checks,
     "not_applicable": na,
